@@ -56,7 +56,7 @@ def props_of(d):
         mw, mg = _re.search(r"exp \|-> (-?\d+)", str(d.get("want", ""))), _re.search(r"exp \|-> (-?\d+)", str(d.get("got", "")))
         if mw and mg:
             w, g = int(mw.group(1)), int(mg.group(1))
-            if g >= 0 and (w == -1 or g < w):
+            if (g >= 0 or g == -2) and (w == -1 or g < w):      # -2: a deadline that wrapped into the past
                 P.add("C07")
             if w >= 0 and (g == -1 or g > w):
                 P.add("C03")
@@ -95,7 +95,7 @@ PLAN = {
     "C04": (["size", "size", "size", "mix"], ["Cfg_count", "Cfg_weight", "Cfg_weightAll"]),
     "C05": (["size", "mix", "expiry"], ["Cfg_count", "Cfg_weightAll"]),
     "C06": (["expiry", "mix", "size", "load", "sweep"], ["Cfg_writing", "Cfg_countExp", "Cfg_weightAll"]),
-    "C07": (["size", "size", "sweep", "mix"], ["Cfg_count", "Cfg_countExp", "Cfg_weight", "Cfg_weightAll"]),
+    "C07": (["size", "size", "sweep", "mix", "deadline"], ["Cfg_count", "Cfg_countExp", "Cfg_weight", "Cfg_weightAll"]),
     "C08": (["load", "load"], ["Cfg_plain", "Cfg_refresh"]),
     "C10": (["load", "load", "stats"], ["Cfg_plain", "Cfg_writing", "Cfg_refresh", "Cfg_count"]),
     "C11": (["load", "deadline"], ["Cfg_refresh", "Cfg_refreshC", "Cfg_refreshX", "Cfg_weightAll"]),
